@@ -511,6 +511,13 @@ func (m *chainMachine) aBoundaryDeploy(t *rapid.T) {
 				m.logop("boundary message not encodable: %v", edits)
 			}
 		}()
-		m.deliver(fmt.Sprintf("CreateDeployment[boundary %v](%s/%d)", edits, ten.name, dseq), msg, ten)
+		route := ""
+		if rapid.IntRange(0, 2).Draw(t, "msgServiceRoute") == 0 {
+			m.svcRoute = true
+			defer func() { m.svcRoute = false }()
+			route = " [Msg service route]"
+			m.label("msg-service-route")
+		}
+		m.deliver(fmt.Sprintf("CreateDeployment[boundary %v](%s/%d)%s", edits, ten.name, dseq, route), msg, ten)
 	}()
 }
